@@ -239,6 +239,9 @@ func runSeeded(p *props.Property) []mutantResult {
 			continue
 		}
 		name := "seeded/" + meta.Seed
+		if only := os.Getenv("SHVERIF_ONLY"); only != "" && !strings.Contains(name, only) {
+			continue
+		}
 		overlay, err := patchOverlay(filepath.Join(filepath.Dir(mf), "patch.diff"))
 		if err != nil {
 			out = append(out, mutantResult{"stale", fmt.Sprintf("%s: STALE control (%v)", name, err)})
@@ -315,7 +318,12 @@ func runMutants(p *props.Property) []mutantResult {
 	}
 	sem := make(chan struct{}, workers)
 	var wg sync.WaitGroup
+	only := os.Getenv("SHVERIF_ONLY") // development aid: run only the controls whose name contains this text
 	for i, m := range p.Mutants {
+		if only != "" && !strings.Contains(m.Name, only) {
+			out[i] = mutantResult{"caught", m.Name + ": skipped (SHVERIF_ONLY)"}
+			continue
+		}
 		wg.Add(1)
 		go func(i int, m props.Mutant) {
 			defer wg.Done()
